@@ -17,7 +17,8 @@ TrS == atoi(IOEnv.C01_S)            \* sector size of this trace shard (cfg: Sec
 TrFlagFix == "C01_FLAGFIX" \in DOMAIN IOEnv /\ IOEnv.C01_FLAGFIX = "1"
 TrBetFix == "C01_BETFIX" \in DOMAIN IOEnv /\ IOEnv.C01_BETFIX = "1"     \* builder stores lookup3 values in the BET table
 TrKey(nm) == <<0, 0>>               \* key derivation is checked on the model (MC_MpqBuild), not in traces
-VARIABLE tl
+VARIABLES tl,
+          tfiles     \* what the File events of the current trace established: idx -> [len, tok, lossy, ok]
 
 SeqToSet(sq) == {sq[j] : j \in 1..Len(sq)}
 Secs(e) == [j \in 1..Len(e.secs) |-> [r |-> e.secs[j][1], st |-> e.secs[j][2], shrunk |-> e.secs[j][3]]]
@@ -106,6 +107,20 @@ ListVerdict(e) ==
        ELSE IF "COMPRESS" \in fl /\ DecodeClass(e.method) # "ok" THEN "dev:codec:" \o CodecDevName(e.method) \o "(listfile)"
        ELSE "list-unexplained"
 
+\* The same archive opened behind a non-zero archive offset (foreign prefix / user-data header): block positions are
+\* relative to the archive header (AbsPos), FIX_KEY keys use the relative position, so every file that read back exactly
+\* from offset 0 must read back exactly here too, and absent names stay absent
+AbsPos(aoff, pos) == aoff + pos
+EmbeddedVerdict(e) ==
+  IF e.open # "ok" THEN "embedded-open-failed"
+  ELSE IF \E j \in 1..Len(e.reads) :
+            LET r == e.reads[j] IN
+            /\ r[1] \in DOMAIN tfiles /\ tfiles[r[1]].ok
+            /\ ~(r[2] = "ok" /\ r[3] = tfiles[r[1]].len /\ (tfiles[r[1]].lossy \/ r[4] = tfiles[r[1]].tok))
+       THEN "embedded-read-differs"
+  ELSE IF e.absent # "notfound" THEN "embedded-absent-name-resolved"
+  ELSE "ok"
+
 Verdict(e) == CASE e.ev = "Reset"  -> (IF e.S = SectorSize THEN "ok" ELSE "shard-sector-size-mismatch")
                 \* an error ends the behaviour (allowed); a panic / hang of build() is not "reports an error"
                 [] e.ev = "Build"  -> (IF e.res \in {"panic", "hang"} THEN "build-" \o e.res ELSE "ok")
@@ -113,6 +128,7 @@ Verdict(e) == CASE e.ev = "Reset"  -> (IF e.S = SectorSize THEN "ok" ELSE "shard
                 [] e.ev = "File"   -> FileVerdict(e)
                 [] e.ev = "Absent" -> AbsentVerdict(e)
                 [] e.ev = "List"   -> ListVerdict(e)
+                [] e.ev = "Embedded" -> EmbeddedVerdict(e)
                 [] e.ev = "Hang"   -> "hang:" \o e.call          \* a library call did not return (per-call watchdog)
                 \* the process running the case died (abort / OOM / signal).  Named deviation DevTableCompression
                 \* (misaligned HET/BET parse) explains a death inside Archive::open of a V3/V4 archive with compressed tables
@@ -121,14 +137,20 @@ Verdict(e) == CASE e.ev = "Reset"  -> (IF e.S = SectorSize THEN "ok" ELSE "shard
                 [] OTHER           -> "unknown-event"
 
 TNone(n) == {1}
-Init == tl = 1 /\ BInitWith({<<>>}) 
+Init == tl = 1 /\ BInitWith({<<>>}) /\ tfiles = <<>>
 Next == /\ tl <= Len(Rec)
         /\ tl' = tl + 1
         /\ UNCHANGED bvars
+        /\ tfiles' = LET e == Rec[tl] IN
+                     IF e.ev = "Reset" THEN <<>>
+                     ELSE IF e.ev = "File"
+                          THEN (e.idx :> [len |-> e.len, tok |-> e.tok, lossy |-> LossyApplied(e), ok |-> FileVerdict(e) = "ok"]) @@ tfiles
+                          ELSE tfiles
         /\ LET e == Rec[tl]
                v == Verdict(e) IN
            /\ (IF v = "ok" THEN TRUE ELSE PrintT(<<"BAD", tl, v>>))
            /\ (IF e.ev = "File" /\ FileDrift(e) # "none" THEN PrintT(<<"DRIFT", tl, FileDrift(e)>>) ELSE TRUE)
+           /\ (IF e.ev = "Embedded" /\ e.open = "ok" /\ e.aoff # e.off THEN PrintT(<<"DRIFT", tl, "archive-offset-differs">>) ELSE TRUE)
            /\ (IF e.ev = "File" /\ HetBetDrift(e) # "none" THEN PrintT(<<"DRIFT", tl, HetBetDrift(e)>>) ELSE TRUE)
 
 Accepted == LET d == TLCGet("stats").diameter IN
